@@ -8,7 +8,8 @@
   (`sk.bc…`), which are regenerated from /repo on every run.
 
   Source map (utils/broadcaster.go):
-    receive      Receive(): closed check, lookup-or-create entry, all under the lock
+    receive      Receive(): closed check, (only if `sk.bcReceiveErrorsOnlyClosed = false`: refusal of a
+                 caller context that is done already), lookup-or-create entry, all under the lock
     rcvCall      calling the returned function: it enters its `select`
     rcvValue     rendezvous  `case v := <-c.channel`  ×  `case c.channel <- v`
     rcvChanClosed `case _, ok := <-c.channel; !ok`     (value channel was closed)
@@ -45,6 +46,7 @@ inductive Pub where
 inductive Rcv where
   | absent
   | refused                            -- Receive returned ErrClosed
+  | refusedCtx                         -- Receive returned the caller context's error (only if the source refuses a done context)
   | have      (key gen ctx : Nat)      -- holds the receive function, not inside it
   | waiting   (key gen ctx : Nat)      -- inside the function's select
   | gotVal    (key gen ctx val : Nat)
@@ -116,6 +118,10 @@ def step (sk : Skeleton) (s : State) : Act → Option State
     if s.crashed = false ∧ s.lockHolder = none ∧ s.rcvs t = .absent then
       if s.closed = true ∧ sk.bcReceiveRefusesWhenClosed = true then
         some { s with rcvs := upd s.rcvs t .refused }
+      else if s.ctxs x = true ∧ sk.bcReceiveErrorsOnlyClosed = false then
+        -- `if err := ctx.Err(); err != nil { return nil, err }`: a caller context that is done already
+        -- is refused with ITS error; no entry is created
+        some { s with rcvs := upd s.rcvs t .refusedCtx }
       else match s.table k with
         | some g => some { s with rcvs := upd s.rcvs t (.have k g x) }
         | none =>
